@@ -102,11 +102,6 @@ impl Scenario for MclmcScenario {
                         out.probe("esh_with_degenerate_inputs_skipped", 1);
                         continue;
                     }
-                    let on = norm(mom_out);
-                    if (on - 1.0).abs() > 1e-12 {
-                        out.violate(format!("C18/momentum_not_unit_after_esh/{pname}"), format!("|p'| = {on:e} after an ESH update (|g| {gn:e}, step {step:e})"));
-                        return out;
-                    }
                     if (norm(mom_in) - 1.0).abs() > 1e-9 {
                         out.violate(format!("C18/momentum_not_unit_before_esh/{pname}"), format!("|p| = {:e} entering an ESH update", norm(mom_in)));
                         return out;
@@ -117,9 +112,15 @@ impl Scenario for MclmcScenario {
                     let tol_m = 1e-8 + 1e-12 / raw_norm.max(1e-300);
                     if cond.abs() < 1e-9 || raw_norm < 1e-9 || !rk.is_finite() {
                         // momentum (numerically) exactly anti-parallel to the gradient with a huge step:
-                        // the closed form itself is singular there; skipped and counted as a near-tie
+                        // the closed form itself is singular there (0/0 in the renormalisation); skipped and
+                        // counted as a near-tie - also for the unit-norm demand, which has no meaning there
                         out.probe("esh_near_singular_skipped", 1);
                         continue;
+                    }
+                    let on = norm(mom_out);
+                    if (on - 1.0).abs() > 1e-12 {
+                        out.violate(format!("C18/momentum_not_unit_after_esh/{pname}"), format!("|p'| = {on:e} after an ESH update (|g| {gn:e}, step {step:e})"));
+                        return out;
                     }
                     let dm = rm.iter().zip(mom_out).map(|(a, b)| (a - b).abs()).fold(0.0, f64::max);
                     let tol_k = 1e-9 * (1.0 + rk.abs()) * (grad.len() as f64) + 1e-12 * (grad.len() as f64) / cond.abs().max(1e-300);
